@@ -78,6 +78,26 @@ var tomlExtractors = map[string]bool{"python/pdmlock": true, "python/poetrylock"
 // classNesting is a known finding.
 const maxNestKnown = 1000
 
+// bracketDepth is the deepest nesting of [ { ( in b (quotes are not interpreted: an upper bound
+// that is exact for the documents the mutators build by repeating bracket-opening fragments).
+func bracketDepth(b []byte) int {
+	d, max := 0, 0
+	for _, c := range b {
+		switch c {
+		case '[', '{', '(':
+			d++
+			if d > max {
+				max = d
+			}
+		case ']', '}', ')':
+			if d > 0 {
+				d--
+			}
+		}
+	}
+	return max
+}
+
 // yamlExtractors decode their input with gopkg.in/yaml.v3.
 var yamlExtractors = map[string]bool{"dart/pubspec": true, "javascript/pnpmlock": true, "os/snap": true, "swift/podfilelock": true}
 
@@ -94,6 +114,29 @@ type healthyRef struct {
 	Extractor string `json:"extractor"`
 	Path      string `json:"path"`
 	Base      string `json:"base"`
+	// Anchored: the format is only accepted at its production path; the file is placed there
+	// (not under h<slot>/).
+	Anchored bool `json:"anchored,omitempty"`
+	// OS is the operating system the extractor insists on (0 when it runs anywhere): the scan's
+	// capabilities then name that system.
+	OS int `json:"os,omitempty"`
+}
+
+// specificOS returns the one operating system an extractor requires, 0 if it runs on any.
+func specificOS(e *extInfo) int {
+	switch e.Req.OS {
+	case plugin.OSLinux, plugin.OSWindows, plugin.OSMac:
+		return int(e.Req.OS)
+	}
+	return 0
+}
+
+// treePath is where the neighbour's file goes in the containment tree.
+func (h healthyRef) treePath(slot int) string {
+	if h.Anchored {
+		return h.Path
+	}
+	return fmt.Sprintf("h%d/%s", slot, h.Path)
 }
 
 type c02Case struct {
@@ -145,11 +188,12 @@ var (
 func healthy() []healthyRef {
 	healthyOnce.Do(func() {
 		for _, e := range Registry() {
-			if e.Req.OS != plugin.OSAny || e.Req.RunningSystem || len(e.Prod) == 0 || e.Prod[0].Exec {
+			if e.Req.RunningSystem || len(e.Prod) == 0 || e.Prod[0].Exec {
 				continue
 			}
 			p := e.Prod[0].Path
-			if !required(e.New, "zz/"+p, 100, false) || len(e.Prod) > 2 {
+			anchored := !required(e.New, "zz/"+p, 100, false)
+			if len(e.Prod) > 2 || (anchored && !required(e.New, p, 100, false)) {
 				continue
 			}
 			for _, f := range e.Fixtures {
@@ -162,7 +206,7 @@ func healthy() []healthyRef {
 				}
 				r, err := runExtract(e, f.Rel, p, data, wallBudget)
 				if err == nil && !r.Panicked && !r.TimedOut && r.Err == nil && r.Pkgs > 0 {
-					healthyPool = append(healthyPool, healthyRef{Extractor: e.Name, Path: p, Base: f.Rel})
+					healthyPool = append(healthyPool, healthyRef{Extractor: e.Name, Path: p, Base: f.Rel, Anchored: anchored, OS: specificOS(e)})
 					break
 				}
 			}
@@ -180,7 +224,26 @@ func compatible(owner *extInfo, path string, h healthyRef, slot int, others []he
 	if he == nil {
 		return false
 	}
-	hp := fmt.Sprintf("h%d/%s", slot, h.Path)
+	// one operating system per scan
+	osWant := specificOS(owner)
+	for _, o := range others {
+		if o.OS != 0 {
+			if osWant != 0 && osWant != o.OS {
+				return false
+			}
+			osWant = o.OS
+		}
+	}
+	if h.OS != 0 && osWant != 0 && h.OS != osWant {
+		return false
+	}
+	if plugin.ValidateRequirements(he.New(), capsForOS(owner, append(append([]healthyRef{}, others...), h))) != nil {
+		return false
+	}
+	hp := h.treePath(slot)
+	if hp == path || strings.HasPrefix(path, hp+"/") || strings.HasPrefix(hp, path+"/") {
+		return false
+	}
 	for _, exec := range []bool{false, true} {
 		if required(he.New, path, 100, exec) || required(owner.New, hp, 100, exec) {
 			return false
@@ -191,7 +254,10 @@ func compatible(owner *extInfo, path string, h healthyRef, slot int, others []he
 		if o.Extractor == h.Extractor || oe == nil {
 			return false
 		}
-		op := fmt.Sprintf("h%d/%s", i+1, o.Path)
+		op := o.treePath(i + 1)
+		if op == hp || strings.HasPrefix(op, hp+"/") || strings.HasPrefix(hp, op+"/") {
+			return false
+		}
 		if required(he.New, op, 100, false) || required(oe.New, hp, 100, false) {
 			return false
 		}
@@ -360,6 +426,14 @@ func genC02(t *rapid.T) c02Case {
 				col.Excluded(classNesting)
 				m.B = maxNestKnown - 1
 			}
+		}
+	}
+	if (yamlExtractors[e.Name] || tomlExtractors[e.Name]) && col.IsKnown(classNesting) {
+		// the same class reached by other operators (a line fragment that opens brackets,
+		// repeated on one line): decided on the document itself
+		if data, err := c.input(); err == nil && bracketDepth(data) > maxNestKnown {
+			col.Excluded(classNesting)
+			c.Muts = nil
 		}
 	}
 	if e.Name == "os/macapps" && col.IsKnown(classBplistCycle) {
@@ -900,12 +974,12 @@ func checkContainment(e *extInfo, c c02Case, data []byte) error {
 		if err != nil {
 			return fmt.Errorf("harness: %w", err)
 		}
-		if err := writeFileAt(root, fmt.Sprintf("h%d/%s", i+1, h.Path), b, false); err != nil {
+		if err := writeFileAt(root, h.treePath(i+1), b, false); err != nil {
 			return fmt.Errorf("harness: %w", err)
 		}
 		exts = append(exts, he)
 	}
-	caps := capsFor(e)
+	caps := capsForOS(e, c.Healthy)
 	if c.ScanOpts&16 != 0 {
 		// the way a default scan runs: every extractor enabled, so that several extractors are
 		// asked about (and may accept) the same files; the list starts at a case-dependent place
